@@ -1,11 +1,14 @@
 #!/bin/bash
 # Re-applies every seeded change under /verif/seeded and runs the quick check of the property it breaks;
-# prints one line per change: CAUGHT / MISSED / MACHINERY. /repo must be clean. Takes ~40 min.
+# prints one line per change: CAUGHT / MISSED / MACHINERY. /repo must be clean. Takes ~2.5 h for all 159;
+# an optional argument is an extended regular expression selecting the changes by name (e.g. '-r8-|-r7-').
 cd /verif
 git -C /repo diff --quiet || { echo "/repo is dirty"; exit 2; }
 miss=0
+sel=${1:-.}
 for d in seeded/*/; do
   name=$(basename $d)
+  echo "$name" | grep -Eq -- "$sel" || continue
   prop=$(python3 -c "import json;print(json.load(open('$d/meta.json'))['breaks_property'])" 2>/dev/null)
   git -C /repo apply /verif/${d}patch.diff || { echo "$name: PATCH DOES NOT APPLY"; continue; }
   out=$(./check $prop --tier quick 2>&1)
